@@ -1,6 +1,7 @@
 package main
 
 import (
+	"go/constant"
 	"go/token"
 	"go/types"
 	"sort"
@@ -68,6 +69,140 @@ func nilClass(v ssa.Value) string {
 	return ""
 }
 
+// phiCompat: cond tests a phi whose incoming values are classifiable constants (`p != nil`, `p == nil`, a boolean p,
+// or a negation of these).  It returns the phi and the indices of the predecessors whose incoming value is compatible
+// with the test having the outcome takenTrue (unknown values are compatible with both outcomes).
+func phiCompat(cond ssa.Value, takenTrue bool) (*ssa.Phi, []int) {
+	for {
+		u, ok := cond.(*ssa.UnOp)
+		if !ok || u.Op != token.NOT {
+			break
+		}
+		cond, takenTrue = u.X, !takenTrue
+	}
+	var compat []int
+	switch x := cond.(type) {
+	case *ssa.Phi:
+		for i, ed := range x.Edges {
+			c, ok := ed.(*ssa.Const)
+			if !ok || c.Value == nil || c.Value.Kind() != constant.Bool {
+				compat = append(compat, i)
+				continue
+			}
+			if constant.BoolVal(c.Value) == takenTrue {
+				compat = append(compat, i)
+			}
+		}
+		return x, compat
+	case *ssa.BinOp:
+		if x.Op != token.EQL && x.Op != token.NEQ {
+			return nil, nil
+		}
+		var phi *ssa.Phi
+		if p, ok := x.X.(*ssa.Phi); ok && nilClass(x.Y) == "nil" {
+			phi = p
+		} else if p, ok := x.Y.(*ssa.Phi); ok && nilClass(x.X) == "nil" {
+			phi = p
+		}
+		if phi == nil {
+			return nil, nil
+		}
+		wantNil := (x.Op == token.EQL) == takenTrue
+		for i, ed := range phi.Edges {
+			switch nilClass(ed) {
+			case "nil":
+				if wantNil {
+					compat = append(compat, i)
+				}
+			case "nonnil":
+				if !wantNil {
+					compat = append(compat, i)
+				}
+			default:
+				compat = append(compat, i)
+			}
+		}
+		return phi, compat
+	}
+	return nil, nil
+}
+
+// PhiCase is one way a value defined by (nested) phis can come about: the value, the predecessor blocks chosen on
+// the way (outermost first), and for every join block met the predecessors that remain possible.
+type PhiCase struct {
+	T        *Term
+	Preds    []*ssa.BasicBlock
+	Restrict map[*ssa.BasicBlock]map[int]bool
+}
+
+// PhiCases expands a phi term into its cases.  Choosing a predecessor of a join block fixes every phi of that block,
+// and the branch conditions that guard the chosen predecessor restrict the predecessors of earlier joins when they
+// test a phi of classifiable constants (`if deleted`, `if err != nil` after an inlined helper): the cases of
+// `x = phi(zero, f(y))` with `y = phi(a, b)` under `if ok` with `ok = phi(false, true)` are {zero, f(b)}.
+func (fa *FuncAnalysis) PhiCases(t *Term, restrict map[*ssa.BasicBlock]map[int]bool, depth int) []PhiCase {
+	phi, _ := t.Instr.(*ssa.Phi)
+	if t.Op != "phi" || phi == nil || depth > 5 {
+		return []PhiCase{{T: t, Restrict: restrict}}
+	}
+	pb := phi.Block()
+	var out []PhiCase
+	for i, ed := range phi.Edges {
+		if al, ok := restrict[pb]; ok && !al[i] {
+			continue
+		}
+		r2 := map[*ssa.BasicBlock]map[int]bool{}
+		for k, v := range restrict {
+			r2[k] = v
+		}
+		r2[pb] = map[int]bool{i: true}
+		pred := pb.Preds[i]
+		feasible := true
+		narrow := func(cond ssa.Value, taken bool) {
+			q, compat := phiCompat(cond, taken)
+			if q == nil {
+				return
+			}
+			set := map[int]bool{}
+			for _, c := range compat {
+				if al, ok := r2[q.Block()]; !ok || al[c] {
+					set[c] = true
+				}
+			}
+			if len(set) == 0 {
+				feasible = false
+			}
+			r2[q.Block()] = set
+		}
+		// the edge pred -> pb, and the branches that dominate pred
+		if len(pred.Succs) == 2 && pred.Succs[0] != pred.Succs[1] {
+			if iff, ok := pred.Instrs[len(pred.Instrs)-1].(*ssa.If); ok {
+				narrow(iff.Cond, pred.Succs[0] == pb)
+			}
+		}
+		for d := pred.Idom(); d != nil; d = d.Idom() {
+			if len(d.Instrs) == 0 {
+				continue
+			}
+			iff, ok := d.Instrs[len(d.Instrs)-1].(*ssa.If)
+			if !ok || d.Succs[0] == d.Succs[1] {
+				continue
+			}
+			e0, e1 := edgeDominates(d, d.Succs[0], pred), edgeDominates(d, d.Succs[1], pred)
+			if e0 != e1 {
+				narrow(iff.Cond, e0)
+			}
+		}
+		if !feasible {
+			continue
+		}
+		for _, c := range fa.PhiCases(fa.Term(ed), r2, depth+1) {
+			c.Preds = append([]*ssa.BasicBlock{pred}, c.Preds...)
+			out = append(out, c)
+		}
+	}
+	return out
+}
+
 // phiCorrelated: the block is entered through an edge that tests a phi against nil (`if err != nil` after a join, the
 // shape that an inlined `if err := helper(...); err != nil` produces).  When every incoming value of the phi is
 // provably nil or provably non-nil, the test tells which predecessors control came from, and the facts common to
@@ -76,35 +211,9 @@ func (fa *FuncAnalysis) phiCorrelated(iff *ssa.If, takenTrue bool, depth int) []
 	if depth > 3 {
 		return nil
 	}
-	bo, ok := iff.Cond.(*ssa.BinOp)
-	if !ok || (bo.Op != token.EQL && bo.Op != token.NEQ) {
-		return nil
-	}
-	var phi *ssa.Phi
-	if p, ok := bo.X.(*ssa.Phi); ok && nilClass(bo.Y) == "nil" {
-		phi = p
-	} else if p, ok := bo.Y.(*ssa.Phi); ok && nilClass(bo.X) == "nil" {
-		phi = p
-	}
+	phi, compat := phiCompat(iff.Cond, takenTrue)
 	if phi == nil {
 		return nil
-	}
-	wantNil := (bo.Op == token.EQL) == takenTrue
-	var compat []int
-	for i, ed := range phi.Edges {
-		switch nilClass(ed) {
-		case "nil":
-			if wantNil {
-				compat = append(compat, i)
-			}
-		case "nonnil":
-			if !wantNil {
-				compat = append(compat, i)
-			}
-		default:
-			// unknown value: it may be either, so this predecessor is compatible with both outcomes
-			compat = append(compat, i)
-		}
 	}
 	if len(compat) == 0 || len(compat) == len(phi.Edges) {
 		return nil
@@ -144,6 +253,29 @@ func (fa *FuncAnalysis) phiCorrelated(iff *ssa.If, takenTrue bool, depth int) []
 	sort.Strings(keys)
 	for _, k := range keys {
 		out = append(out, common[k])
+	}
+	// a short-circuit value (`a && b` evaluated as a value, as a tagless switch case does): when the only compatible
+	// predecessor carries a non-constant value, control came from there and that value has the tested outcome
+	if len(compat) == 1 {
+		cond, pol := iff.Cond, takenTrue
+		for {
+			u, ok := cond.(*ssa.UnOp)
+			if !ok || u.Op != token.NOT {
+				break
+			}
+			cond, pol = u.X, !pol
+		}
+		if _, isBoolPhi := cond.(*ssa.Phi); isBoolPhi {
+			ed := phi.Edges[compat[0]]
+			if _, isConst := ed.(*ssa.Const); !isConst {
+				t := fa.Term(ed)
+				for t.Op == "unop" && t.Name == "!" {
+					t = t.Args[0]
+					pol = !pol
+				}
+				out = append(out, Guard{Cond: t, Pos: pol, If: iff})
+			}
+		}
 	}
 	return out
 }
